@@ -81,7 +81,8 @@ func newAdWorld() *adWorld {
 	w.Val = vals[0].OperatorAddress
 	for _, mode := range []string{"forward", "fwdrevert", "delegatecall", "lookalike"} {
 		w.Helpers[mode] = map[string]common.Address{}
-		for name, target := range map[string]common.Address{"staking": stakingAddr, "gov": govAddr} {
+		for _, name := range []string{"staking", "gov"} { // fixed order: the helper addresses depend on the deployer's nonce
+			target := map[string]common.Address{"staking": stakingAddr, "gov": govAddr}[name]
 			nonce := c.App.EvmKeeper.GetNonce(c.Ctx(), rich.Eth)
 			addr := crypto.CreateAddress(rich.Eth, nonce)
 			if r := c.DeliverEth(rich, nil, nil, proxyCode(mode, target)); !r.OK() {
